@@ -33,6 +33,67 @@ CLAIMS = {
     'C08': ('vrt', 'stateless model checking of the implementation (same harness family as C07)',
             'Grant order respects the real-time partial order of requests, every request is granted (else deadlock report with schedule), the '
             'mutex is lockable again after all releases, try_lock never blocks.', '5/C08'),
+    'C04': ('seqx', 'exhaustive enumeration of the start-mode x completion x type x depth product on the real code, reference outcome per cell',
+            'All 600 feasible cells (13 start modes x 4 completion modes x 4 result types x depth 1..3; join() against a suspended chain needs a '
+            'second thread) are executed: body-run counters per level, delivery to the bound party, RAII guards on arguments and locals, value '
+            'lifetime and frame allocation balance are checked in each.', '5/C04'),
+    'C05': ('seqx', 'exhaustive program enumeration; every event checked online against a reference scheduler (bounded model checking of schedules)',
+            'Every well-formed program of N scripted coroutines over the step alphabet (N=2 x <=3 steps, N=3 x <=2 steps quick) entered from normal '
+            'code and from a coroutine runs on the real library; each start/resume/finish event must be allowed by a reference scheduler that '
+            'encodes run-to-suspension, FIFO order, pause round-robin, exactly-once resumption and full drain, leaving open only what the property leaves open.', '5/C05'),
+    'C06': ('seqx', 'explicit-state breadth-first search over operation histories on real objects, deduplicated by a canonical key',
+            'All reachable canonical states (per slot: exists, count, heap flag, capacity; normal / coroutine mode) with up to 14 (quick) / 40 '
+            '(thorough) live handles are visited; after every history plus teardown each handle (a real suspended coroutine) must have been '
+            'resumed exactly once (a second resume is a use-after-free under ASan), typed values preserved, allocation balance 0.', '5/C06'),
+    'C09': ('seqx', 'exhaustive history enumeration against a reference model (item list + waiter list)',
+            'Every history over push/pop/unblock_pop/reap/destroy up to depth 7 (quick) / 9 for queue<int>, queue<MoveOnly>, queue<void>: after '
+            'every step the readiness, value or exception of every pop future, push results and size()/empty() equal the model; destruction '
+            'cancels waiting pops; allocation balance. Threaded part not yet built (see level_note).', '5/C09'),
+    'C10': ('seqx', 'exhaustive history enumeration against a reference model (bounded FIFO + blocked producers + waiting consumers)',
+            'Every history over push/pop/unblock_push for limits 1..4 up to depth 8 (quick) / 11: readiness and result of every push and pop '
+            'future, item order, withdrawal by unblock_push, size()/empty() compared with the model after every step. Threaded part not yet built.', '5/C10'),
+    'C11': ('vrt', 'stateless model checking of the implementation (preemption-bounded DFS + HB-prefix cache)',
+            'Pools of 1-3 workers, 1-2 submissions of every kind (co_await pool, run(fn) small/large closure, run_detached, co_await pool(future), '
+            'run(async), resume(suspend_point)), stop()/destructor/self-stop at every schedule-chosen moment: each job ran once on a worker or was '
+            'cancelled observably once, stop() returns in every schedule, closures freed, heap clean. Lost resume() jobs are a recorded known finding.', '5/C11'),
+    'C12': ('seqx', 'exhaustive history / script enumeration under virtual time against a multiset model',
+            'Manual mode: every history over schedule/cancel/cancel(e)/remove/get_expired (15 operations, depth 5 full alphabet, 6-8 reduced) against '
+            'a multiset of pending sleeps. Single-thread start(awaitable) mode under virtual time: every script of 1-3 sleepers (durations, second '
+            'sleep, cancel of any sleeper at any time, interval() with stop token): never early, not late while idle, deadline order, exactly once, '
+            'cancel result, destruction cancels the rest. Thread / pool mode not yet built.', '5/C12'),
+    'C13': ('seqx', 'exhaustive enumeration of body scripts x consumer access-style sequences',
+            'Every body script over {yield, await ready, await pending, throw} (<=3 quick / 4) x every sequence of access styles (next/value, '
+            'co_await next, call+wait, call+co_await has_value, range-for, early destroy; <=4 / 5), with and without argument: observed '
+            'sequence == yielded sequence then one end indication, exception at its position, arguments, locals destroyed once. Blocking styles against '
+            'pending awaits (another thread completes them) not yet built.', '5/C13'),
+    'C14': ('seqx', 'exhaustive enumeration of source multisets x consumer styles x stop points',
+            'Every multiset of 0..3 (quick) / 0..5 scripted sources (empty, finite 1-3, infinite, throwing at 0/1, asynchronous) x consumer style pairs x '
+            'argument / no argument x stop-after: multiset union, per-source order, ends iff all ended, exception reported without losing values, '
+            'argument routing, source locals and allocations released.', '5/C14'),
+    'C15': ('seqx', 'exhaustive history enumeration against a reference model (set of waiting listeners)',
+            'Every history of depth 5 (quick) / 6 over listener arrival/leave (3 listeners), connect callback (true/false), collector calls by '
+            'value/rvalue/lvalue, copy/drop of collector and signal handles, hook_up: each call reaches exactly the waiting set once each; '
+            'last handle gone resumes every waiter with await_canceled_exception and deletes callbacks; awaiting a disconnected emitter fails at once.', '5/C15'),
+    'C16': ('vrt+seqx', 'exhaustive history enumeration against a cursor model + stateless model checking of publisher/subscriber threads',
+            'seqx: every history (depth 5-6 quick, 7-8 thorough) over publish/batch/subscribe(recent, at, copy)/await/next_ready/kick/leave/close for '
+            '(min,max) in 1..3 (1..5) and unlimited x three modes against the reference of DESIGN 5/C16. vrt: publisher thread against coroutine, '
+            'blocking and polling subscribers, bound 2/3.', '5/C16'),
+    'C17': ('vrt', 'stateless model checking of the implementation (bound 2/3, all interleavings for one handle thread)',
+            'Resolver thread (value/exception/drop) against 1-2 threads running scripts over copy/await/wait/poll/drop with the main handle dropped '
+            'early or late, for every constructor (promise function, future function pending/ready, default + get_promise): same result for all, '
+            'each awaiter once, stored value destroyed exactly once after resolution (Counted balance, heap oracle).', '5/C17'),
+    'C18': ('seqx', 'exhaustive configuration product on the real code',
+            'adapter (callback_await, callback_await_alloc, make_promise, make_promise+storage, discard, six future_conv shapes, call_fn_future_awaiter) '
+            'x outcome (value, exception, drop) x timing (before / after registration on the same thread) x converter returns/throws: completion count, '
+            'outcome, outer future content, helper freed once. Concurrent resolution on another thread not yet built.', '5/C18'),
+    'C19': ('seqx', 'exhaustive history enumeration per storage policy with a spy storage',
+            'Every history of depth 5 (quick) / 7 over create(S/M/L) and finish(i) within each policy discipline for 8 policies: blocks disjoint among '
+            'live frames (spy + canaries), dealloc matches alloc, heap fallback freed once, no allocation after warm-up, extra object constructed / usable / '
+            'destroyed once. Two-thread part for reusable_storage_mtsafe not yet built.', '5/C19'),
+    'C20': ('seqx', 'exhaustive enumeration of program families inside a measured region (global operator new counter)',
+            'future/promise with 0-3 coroutine-type waiters, callback awaiter, every outcome and three value types; mutex try/blocking paths; suspend '
+            'points with 0-4 handles and four disposals; synchronous generator stepping in three styles; every scheduling program of N=2 x <=3 / N=3 x <=2 '
+            'steps over pause/resolve/await/lock/release with frames in reusable storage: operator new count in the region is 0.', '5/C20'),
 }
 
 
